@@ -2,7 +2,8 @@
 """Maintenance helper for lean/RsslVerif/Lemmas/PanicClasses.lean (not a translator plugin: the leading `_`
 keeps tools/translate.py from loading it).
 
-usage: python3 tools/gens/_c08_review.py review1.tsv [review2.tsv ...]
+usage: python3 tools/gens/_c08_review.py [update1.tsv ...]
+The entries of the committed Lemmas/PanicClasses.lean are the base; TSV lines override / add to them.
 Each TSV line: <file>:<line> \t <fn> \t <kind> \t <text> \t <class> \t <reason>   (the review of one site).
 The script joins the reviews with the *current* inventory (Gen.PanicSites as produced by tools/gens/c08.py on
 /repo), keeps the inventory's order, and writes the Lean list.  Sites without a review are reported and make
@@ -37,6 +38,13 @@ def main(argv):
     translate.GENS["PanicSites"]()
     sites = sorted(c08.LINES)  # (file, fn, kind, text)
     reviews = {}
+    # base: the committed list itself (so an update only needs the lines that change)
+    dest0 = os.path.join(os.path.dirname(os.path.dirname(HERE)), "lean", "RsslVerif", "Lemmas", "PanicClasses.lean")
+    if os.path.exists(dest0):
+        def un(x):
+            return x[1:-1].replace('\\"', '"').replace('\\\\', '\\')
+        for a, b, c, d, e, f in re.findall(r'\(\((".*?"), (".*?"), (".*?"), (".*?")\), (".*?"),\n     (".*?")\)', open(dest0).read()):
+            reviews[(un(a), un(b), un(c), un(d))] = (un(e), un(f))
     for path in argv:
         for line in open(path, encoding="utf-8"):
             f = line.rstrip("\n").split("\t")
